@@ -1695,7 +1695,7 @@ class UTPM(Ring, RawAlgorithmsMixIn):
             # try to infer the dtype from x
             dtype= x.dtype
 
-            if dtype==int:
+            if numpy.issubdtype(dtype, numpy.integer):
                 dtype=float
 
 
@@ -1749,7 +1749,7 @@ class UTPM(Ring, RawAlgorithmsMixIn):
             # try to infer the dtype from x
             dtype= x.dtype
 
-            if dtype==int:
+            if numpy.issubdtype(dtype, numpy.integer):
                 dtype=float
 
 
@@ -1819,6 +1819,8 @@ class UTPM(Ring, RawAlgorithmsMixIn):
         """
 
         x = numpy.ravel(x)
+        if numpy.issubdtype(x.dtype, numpy.integer):
+            x = x.astype(float)
 
         # generate directions
         N = x.size
@@ -1886,7 +1888,7 @@ class UTPM(Ring, RawAlgorithmsMixIn):
             # try to infer the dtype from x
             dtype= x.dtype
 
-            if dtype==int:
+            if numpy.issubdtype(dtype, numpy.integer):
                 dtype=float
 
         N = numpy.size(x)
